@@ -5,10 +5,12 @@ JSON tree nodes (all numbers are strings of exact fractions; inside a for-loop b
 [const, index_name, coefficient] meaning const + index*coefficient):
   {'k':'const','id':name|None,'dur':num,'vals':{ch:num},'meas':[[name,begin,len]]}
   {'k':'table','id':..,'entries':{ch:[[t,v,'hold'|'linear'|'jump'],...]},'meas':[...]}
+  {'k':'func','id':..,'ch':ch,'dur':num,'a':num,'b':num,'meas':[...]}      FunctionPT('a*t + b', dur, ch); a, b per real time
+  {'k':'amc','id':..,'meas':[...],'subs':[atom nodes on disjoint channels, same duration]}   AtomicMultiChannelPT
   {'k':'seq','id':..,'meas':[...],'subs':[node...]}
   {'k':'rep','id':..,'meas':[...],'n':int,'body':node}
   {'k':'for','id':..,'meas':[...],'idx':'i','range':[a,b,s],'body':node}
-  {'k':'map','id':..,'chmap':{inner:outer},'sub':node}
+  {'k':'map','id':..,'chmap':{inner:outer},'mmap':{inner_name:outer_name} (optional),'sub':node}
   {'k':'par','id':..,'ov':{ch:num},'sub':node}
   {'k':'arith','id':..,'op':'+'|'-'|'*'|'/','side':'l'|'r','scalar':num|{ch:num},'sub':node}   side = where the PT stands
   {'k':'rev','id':..,'sub':node}
@@ -89,6 +91,13 @@ def build_pt(node, objs=None, path=()):
     elif k == 'table':
         pt = TablePT({c: [(_expr(t), _expr(v), ip) for t, v, ip in es] for c, es in node['entries'].items()},
                      identifier=ident, measurements=meas)
+    elif k == 'func':
+        from qupulse.pulses import FunctionPT
+        pt = FunctionPT('(%r)*t + (%s)' % (_py(node['a']), _expr(node['b'])), _expr(node['dur']), channel=node['ch'],
+                        identifier=ident, measurements=meas)
+    elif k == 'amc':
+        from qupulse.pulses import AtomicMultiChannelPT
+        pt = AtomicMultiChannelPT(*[build_pt(s) for s in node['subs']], identifier=ident, measurements=meas)
     elif k == 'seq':
         pt = SequencePT(*[build_pt(s, objs, tuple(path) + (i,)) for i, s in enumerate(node['subs'])],
                         identifier=ident, measurements=meas)
@@ -97,7 +106,8 @@ def build_pt(node, objs=None, path=()):
     elif k == 'for':
         pt = ForLoopPT(sub('body'), node['idx'], tuple(node['range']), identifier=ident, measurements=meas)
     elif k == 'map':
-        pt = MappingPT(sub('sub'), channel_mapping=dict(node['chmap']), identifier=ident)
+        pt = MappingPT(sub('sub'), channel_mapping=dict(node['chmap']), identifier=ident,
+                       measurement_mapping=dict(node['mmap']) if node.get('mmap') else None)
     elif k == 'par':
         pt = ParallelChannelPT(sub('sub'), {c: _expr(v) for c, v in node['ov'].items()}, identifier=ident)
     elif k == 'arith':
